@@ -147,7 +147,14 @@ def run(ctx: Ctx, tier: str) -> Result:
         conds_ = [(c_, pol) for c_, pol in paths.conditions(p, dl, srch) if paths.within(p, c_, lps_[0])]
         ident = [c_ for c_, pol in conds_ if pol and isinstance(c_, ast.Compare) and len(c_.ops) == 1 and isinstance(c_.ops[0], (ast.Is, ast.Eq))
                  and elem in (norm(c_.left), norm(c_.comparators[0]))]
-        if whole and ident and len(conds_) == len(ident):
+        by_value = [c_ for c_ in ident if isinstance(c_.ops[0], ast.Eq)]
+        if whole and by_value:
+            # `==` runs Trigger.__eq__ against every earlier registration: the locations' __eq__ are not total (a method location
+            # compared with a line location of the same file fails), and the handle names one object, not a value
+            res.fail(Finding("C13.MATCH", rem.qname, by_value[0], srch.loc(by_value[0]), "the registration's trigger is looked for by value (`%s`), not by identity: the comparison runs the "
+                             "triggers' __eq__ on every earlier registration - which is not total (method against line location of one file) - so unregistering "
+                             "can fail half way, leaving the tracepoint installed with a dead handle" % norm(by_value[0])))
+        elif whole and ident and len(conds_) == len(ident):
             res.ok("C13.MATCH", {"searches the whole list; deletes the element that is the registration's trigger": norm(ident[0])})
         else:
             res.fail(Finding("C13.MATCH", rem.qname, dl, srch.loc(dl), "the entry deleted is not found by comparing every registered trigger with the one looked up "
